@@ -186,41 +186,55 @@ func (hm *HashMap) Injected() bool {
 
 // MaintainRecordStates maintains records states in the database.
 func (hm *HashMap) MaintainRecordStates(ctx context.Context, purgeDeletedBefore time.Time, shadowDelete bool) error {
-	hm.dbLock.Lock()
-	defer hm.dbLock.Unlock()
-
 	now := time.Now().Unix()
 	purgeThreshold := purgeDeletedBefore.Unix()
 
-	for key, record := range hm.db {
-		// check if context is cancelled
-		select {
-		case <-ctx.Done():
-			return nil
-		default:
-		}
+	// Expired records that are to be marked as deleted. They are marked after
+	// the database lock has been released: whoever holds the lock of such a
+	// record (an update in progress) may be waiting for the database lock.
+	var expired []record.Record
 
-		meta := record.Meta()
-		switch {
-		case meta.Deleted == 0 && meta.Expires > 0 && meta.Expires < now:
-			if shadowDelete {
-				// mark as deleted
-				record.Lock()
-				meta.Deleted = meta.Expires
-				record.Unlock()
+	err := func() error {
+		hm.dbLock.Lock()
+		defer hm.dbLock.Unlock()
 
-				continue
+		for key, record := range hm.db {
+			// check if context is cancelled
+			select {
+			case <-ctx.Done():
+				return nil
+			default:
 			}
 
-			// Immediately delete expired entries if shadowDelete is disabled.
-			fallthrough
-		case meta.Deleted > 0 && (!shadowDelete || meta.Deleted < purgeThreshold):
-			// delete from storage
-			delete(hm.db, key)
+			meta := record.Meta()
+			switch {
+			case meta.Deleted == 0 && meta.Expires > 0 && meta.Expires < now:
+				if shadowDelete {
+					// mark as deleted (below)
+					expired = append(expired, record)
+					continue
+				}
+
+				// Immediately delete expired entries if shadowDelete is disabled.
+				fallthrough
+			case meta.Deleted > 0 && (!shadowDelete || meta.Deleted < purgeThreshold):
+				// delete from storage
+				delete(hm.db, key)
+			}
 		}
+		return nil
+	}()
+
+	for _, record := range expired {
+		record.Lock()
+		meta := record.Meta()
+		if meta.Deleted == 0 && meta.Expires > 0 && meta.Expires < now {
+			meta.Deleted = meta.Expires
+		}
+		record.Unlock()
 	}
 
-	return nil
+	return err
 }
 
 // Shutdown shuts down the database.
